@@ -522,6 +522,25 @@ theorem C06_reconnect_never_applies (db : DB) (rpc : Rpc) (rm : Bool) :
   repeat' split
   all_goals first | exact ⟨Or.inl rfl, rfl⟩ | exact ⟨Or.inr rfl, rfl⟩
 
+/-- **Every function that (re-)creates the stream to the auctioneer checks the pending batch before it
+(re-)subscribes accounts** – regenerated from `auctioneer/client.go`: the callers of `connectServerStream` are exactly
+`connectAndAuthenticate` (first connect) and `HandleServerShutdown` (stream error / shutdown notice). -/
+theorem facts_stream_creators_check :
+    streamCreators = [("HandleServerShutdown", "check-before-subscribe"),
+                      ("connectAndAuthenticate", "check-before-subscribe")] := by decide
+
+/-- a check answered "not finalised" keeps everything -/
+theorem reconnect_notFinalised_keeps (db : DB) (rm : Bool) : (reconnect (.rpcErr true) rm db).1 = db := by
+  rw [reconnect_db]; cases db.pendingSnap <;> rfl
+
+/-- **All reconnect paths apply the same decision**: first connect, stream error and shutdown notice have exactly
+the database effect of one `checkPendingBatch` with the auctioneer's final answer – so `C06_reconnect_keep_iff` /
+`C06_reconnect_never_applies` hold for each of them. -/
+theorem C06_reconnect_all_paths (p : Path) (rpc : Rpc) (rm : Bool) (db : DB) :
+    (reconnectVia p rpc rm db).1 = (step db (.reconnect rpc rm)).1 ∧
+    (reconnectVia p rpc rm db).2.getLast? = some (reconnect rpc rm db).2 := by
+  cases p <;> simp [reconnectVia, step, reconnect_notFinalised_keeps]
+
 /-- kept ⇔ not loadable ∨ not finalised ∨ same txid (∨ cleanup impossible); discarded otherwise -/
 theorem C06_reconnect_keep_iff (db : DB) (hc : Coh db) (st : Staged) (hs : staged db = some st)
     (rpc : Rpc) (rm : Bool) :
